@@ -22,6 +22,7 @@ func register(id string, f func(p *Prog, r *Report)) { registry[id] = f }
 
 func init() {
 	register("C01", checkC01)
+	register("C02", checkC02)
 	register("C03", checkC03)
 	register("C04", checkC04)
 	register("C05", checkC05)
